@@ -47,6 +47,8 @@ fn arg_value(args: &[String], name: &str) -> Option<String> {
 macro_rules! dispatch {
     ($id:expr, $f:ident ( $($a:expr),* )) => {
         match $id {
+            "C24" => Some(driver::$f::<props::c24::C24>($($a),*)),
+            "C25" => Some(driver::$f::<props::c25::C25>($($a),*)),
             "C26" => Some(driver::$f::<props::c26::C26>($($a),*)),
             "C27" => Some(driver::$f::<props::c27::C27>($($a),*)),
             "C28" => Some(driver::$f::<props::c28::C28>($($a),*)),
